@@ -168,11 +168,15 @@ func (p PNG) Bytes() ([]byte, *Map) {
 type Seg struct {
 	Marker byte   `json:"marker"`
 	Data   []byte `json:"data"`
+	// Fill: number of 0xFF fill bytes written before the segment's marker (ITU T.81 B.1.1.2: "Any marker may
+	// optionally be preceded by any number of fill bytes, which are bytes assigned code X'FF'")
+	Fill int `json:"fill,omitempty"`
 }
 
 type JPEG struct {
 	Segs    []Seg  // everything between SOI and SOS (SOF included, wherever the caller puts it)
 	SOS     []byte // SOS header payload (nil: no scan at all)
+	SOSFill int    // fill bytes before the SOS marker
 	Entropy []byte // raw entropy-coded bytes (0xFF is stuffed by the builder)
 	NoEOI   bool
 }
@@ -210,7 +214,7 @@ func ICCSegs(profile []byte, sizes []int) []Seg {
 
 func ICCSeg(num, total byte, part []byte) Seg {
 	d := append([]byte("ICC_PROFILE\x00"), num, total)
-	return Seg{0xE2, append(d, part...)}
+	return Seg{Marker: 0xE2, Data: append(d, part...)}
 }
 
 func (j JPEG) Bytes() ([]byte, *Map) {
@@ -219,6 +223,7 @@ func (j JPEG) Bytes() ([]byte, *Map) {
 	b.Write([]byte{0xFF, 0xD8})
 	sofEnd, lastICC := -1, -1
 	for _, s := range j.Segs {
+		b.Write(bytes.Repeat([]byte{0xFF}, s.Fill))
 		off := b.Len()
 		b.Write([]byte{0xFF, s.Marker, byte((len(s.Data) + 2) >> 8), byte(len(s.Data) + 2)})
 		b.Write(s.Data)
@@ -241,6 +246,7 @@ func (j JPEG) Bytes() ([]byte, *Map) {
 	m.Marks["sofEnd"] = sofEnd
 	m.Marks["lastICCEnd"] = lastICC
 	if j.SOS != nil {
+		b.Write(bytes.Repeat([]byte{0xFF}, j.SOSFill))
 		off := b.Len()
 		b.Write([]byte{0xFF, 0xDA, byte((len(j.SOS) + 2) >> 8), byte(len(j.SOS) + 2)})
 		b.Write(j.SOS)
